@@ -738,7 +738,8 @@ class FlowState:
         """Returns the flow Finished event."""
         if not args:
             args = {}
-        if "_return_value" in self.context:
+        # (a return value written in a statement, `match $ref.Finished(return_value=..)`, stays)
+        if "_return_value" in self.context and "return_value" not in args:
             args["return_value"] = self.context["_return_value"]
         return self._create_out_event(
             InternalEvents.FLOW_FINISHED, matching_scores, args
